@@ -222,9 +222,20 @@ __CPROVER_assigns(_this->storage, ENC_BUF(_this))
 __CPROVER_ensures(RI_ENC(_this) && _this->storage == _size)
 ;
 
+/* ghost (assigned only through the hook OPUS_VERIF_GHOST(enc_done_end)): the termination value ec_enc_done settled on,
+   its don't-care mask and the number of bits it will emit */
+opus_uint32 verif_done_end, verif_done_msk; int verif_done_l;
+#undef  OPUS_VERIF_GHOST_enc_done_end
+#define OPUS_VERIF_GHOST_enc_done_end verif_done_end = end; verif_done_msk = msk; verif_done_l = l;
+
 void ec_enc_done(ec_enc *_this)
 __CPROVER_requires(ENC_OP_REQUIRES(_this))
-__CPROVER_assigns(_this->end_offs, ENC_FRAME(_this))
+__CPROVER_assigns(_this->end_offs, ENC_FRAME(_this), verif_done_end, verif_done_msk, verif_done_l)
+/* termination: every code value that starts with the emitted bits lies inside the final interval [val, val+rng):
+   "the symbols encoded thus far will be decoded correctly regardless of the bits that follow" */
+__CPROVER_ensures(__CPROVER_old(_this->val) <= verif_done_end && (verif_done_end & verif_done_msk) == 0)
+__CPROVER_ensures((unsigned long long)(verif_done_end | verif_done_msk) < (unsigned long long)__CPROVER_old(_this->val) + __CPROVER_old(_this->rng))
+__CPROVER_ensures(0 <= verif_done_l && verif_done_l <= 9 && verif_done_msk == ((1U << 31) - 1) >> verif_done_l)
 __CPROVER_ensures(_this->offs <= _this->storage && _this->end_offs <= _this->storage - _this->offs)
 __CPROVER_ensures(_this->error == 0 || _this->error == -1)
 __CPROVER_ensures(__CPROVER_old(_this->error) == -1 ==> _this->error == -1)
